@@ -2,7 +2,8 @@
    Statements closed by [exact]; hypotheses: [wf_cfg] (genesis has number 0, epoch length > 0), [Inv] of the initial
    store (proved for every genesis store: genesis_inv), [wf_hist] (the trie-layer premise on the node sets, see Crash/ProofsImport.v). *)
 From Coq Require Import List NArith Bool.
-From Verif Require Import Crash.Model Crash.ProofsStore Crash.ProofsInv Crash.ProofsImport Crash.ProofsCrash Crash.Examples.
+From Verif Require Import Crash.Model Crash.ProofsStore Crash.ProofsInv Crash.ProofsImport Crash.ProofsCrash Crash.Examples
+  Crash.ProofsResume.
 Import ListNotations.
 Open Scope N_scope.
 
@@ -36,6 +37,44 @@ Theorem genesis_store_invariant L g :
   num_of (b_id g) = 0 -> b_skeep g = [] -> b_ikeep g = [] -> Inv (mkCfg L (b_id g)) (genesis_store g).
 Proof. exact (genesis_inv L g). Qed.
 
+(* ---- the resume clause.
+   [resume_converges_statement rep] (Crash/ProofsResume.v): for every history, every cut and the import it interrupts,
+   restart + resuming the stream from the interrupted block ends with the same best block and the same tallies as the
+   uninterrupted run.  For the code BEFORE the F6 repair (rep = false) the faithful model refutes it: *)
+Theorem resume_quality_refuted : ~ resume_converges_statement false.
+Proof. exact ProofsResume.resume_quality_refuted. Qed.
+
+(* the witness is the cut between the block bulk and the quality record of a store-point block ... *)
+Example f6_witness_is_that_cut :
+  cut_in_import ex_cfg ex_s0 ex_hist f6_cut 2 /\
+  stored (crash ex_cfg ex_s0 ex_hist f6_cut) (bid 3 3) = true /\
+  has (crash ex_cfg ex_s0 ex_hist f6_cut) (KQuality (bid 3 3)) = false /\
+  has (crash ex_cfg ex_s0 ex_hist (S f6_cut)) (KQuality (bid 3 3)) = true.
+Proof. exact f6_cut_position. Qed.
+
+(* ... and in the example history (28 writes, 29 cut positions) the unrepaired restart diverges at exactly the four cuts of
+   that class and nowhere else (a checked instance, not a theorem over all histories) *)
+Example without_repair_exactly_the_f6_cuts_diverge :
+  filter (fun k =>
+    negb match resume ex_cfg false (crash ex_cfg ex_s0 ex_hist k) (skipn (import_of_cut ex_cfg ex_s0 ex_hist k) ex_hist) with
+         | Some s' => same_outcome ex_cfg false s' (run ex_cfg ex_s0 ex_hist)
+         | None => false
+         end) (seq 0 (S (length (writes_of ex_cfg ex_s0 ex_hist)))) = [3; 10; 18; 26]%nat.
+Proof. exact resume_diverges_exactly_at_f6_cuts. Qed.
+
+(* with the repair (the code as it is now) every cut of the example converges; finalized lags only at the cut between the
+   quality and the finalized record of the last committed epoch. [resume_converges_statement true] for ALL histories is
+   NOT proved (it stays a Definition); the harness evaluates it on the real code and on the model at every cut. *)
+Example with_repair_every_cut_of_the_example_converges :
+  (forallb (fun k =>
+    match resume ex_cfg true (crash ex_cfg ex_s0 ex_hist k) (skipn (import_of_cut ex_cfg ex_s0 ex_hist k) ex_hist) with
+    | Some s' => same_outcome ex_cfg (negb (Nat.eqb k 27)) s' (run ex_cfg ex_s0 ex_hist)
+    | None => false
+    end) (seq 0 (S (length (writes_of ex_cfg ex_s0 ex_hist))))) = true /\
+  length (writes_of ex_cfg ex_s0 ex_hist) = 28%nat /\
+  option_map (finalized ex_cfg) (resume ex_cfg true (crash ex_cfg ex_s0 ex_hist 27) []) = Some (bid 2 2).
+Proof. exact resume_converges_on_example. Qed.
+
 (* non-vacuity: a concrete genesis and a seven-block history over three committed epochs meet the hypotheses *)
 Example hypotheses_met : wf_cfg ex_cfg /\ Inv ex_cfg ex_s0 /\ wf_hist ex_cfg ex_s0 ex_hist.
 Proof. exact (conj ex_wf_cfg (conj ex_inv0 ex_wf_hist)). Qed.
@@ -51,5 +90,9 @@ Print Assumptions every_cut_satisfies_invariant.
 Print Assumptions crash_consistent.
 Print Assumptions bft_records_after_block.
 Print Assumptions genesis_store_invariant.
+Print Assumptions resume_quality_refuted.
+Print Assumptions f6_witness_is_that_cut.
+Print Assumptions without_repair_exactly_the_f6_cuts_diverge.
+Print Assumptions with_repair_every_cut_of_the_example_converges.
 Print Assumptions hypotheses_met.
 Print Assumptions history_not_trivial.
